@@ -34,6 +34,8 @@ def harnesses(tier, seed):
                     hs.append(collect_harness("c01", "collect_vec", ty, "slice", 2, 2, 1, owners, k))
             for owners in owner_tables(3, 2, 2):
                 for k in INTERESTING3[ty]:
+                    if sum(k) >= 6 and owners[0] == owners[2]:
+                        continue  # the expensive fan-out-4 shapes only where neighbouring chunks have different owners
                     hs.append(collect_harness("c01", "collect_vec", ty, "slice", 3, 2, 2, owners, k))
             hs.append(collect_harness("c01", "collect", ty, "slice", 2, 2, 1, [1, 0], (1, 1)))
             # fewer chunks than workers: one chunk of 2, held by the first or by the last worker
@@ -45,7 +47,7 @@ def harnesses(tier, seed):
                 for owners in owner_tables(2, 2, 1):
                     hs.append(collect_harness("c01", "collect_vec", ty, src, 2, 2, 1, owners, (1, 1)))
                 hs.append(collect_harness("c01", "collect_vec", ty, src, 3, 2, 1, [0, 1, 0], (1, 1, 1)))
-        hs.append(collect_harness("c01", "collect_vec", "FMF", "sched", 3, 2, 2, [1, 1, 0], (1, 0, 1)))
+        hs.append(collect_harness("c01", "collect_vec", "FMF", "sched", 2, 2, 1, [1, 0], (1, 1)))
         hs.append(collect_harness("c01", "collect", "M", "sched", 2, 2, 1, [1, 0], (1, 1)))
     else:
         light, heavy = [], []
